@@ -157,6 +157,12 @@ def check_case(case) -> Outcome:
     except (ValueError, TypeError) as e:
         out.fail("non-numeric-cell", f"{s!r} on dtype {dt} via {mat}, output {output}: {str(e)[:120]}; sample {np.asarray(raw).ravel()[:6].tolist()}", **feat)
         return out
+    if output == "pandas" and dt in ("int64", "uint64") and "v" in list(mm.columns) and mat == "pandas" and max(case["values"]) > 2**53:
+        # exact pass-through of integers beyond the float mantissa
+        out.label("big-integers")
+        col_ = mm["v"]
+        if getattr(col_.dtype, "kind", "O") not in "iu" or [int(x_) for x_ in col_] != [int(x_) for x_ in case["values"]]:
+            out.fail("integer-column-unchanged", f"{s!r} (ensure_full_rank={efr}): column v is {col_.dtype} {[int(x_) for x_ in col_]} for input {case['values']}", **feat)
     en, eM = predict(mm.model_spec, fc, fr, efr)
     if names != en:
         out.fail("names", f"{s!r} on {dt} {case['values']} cats={case.get('categories')} via {mat}: {names} vs {en}", **feat)
@@ -189,6 +195,8 @@ def gen():
             hi = {"int8": 127, "uint8": 255}.get(dt, 30000)
             lo = 0 if dt.startswith("u") else -min(hi, 100)
             vals = draw(st.lists(st.integers(lo, hi), min_size=n, max_size=n))
+            if dt in ("int64", "uint64") and draw(st.integers(0, 3)) == 0:
+                vals[0] = 2**53 + 1  # not representable as a float: an integer column passes through unchanged
         else:
             vals = draw(st.lists(st.sampled_from([-2.5, -1.0, 0.0, 0.5, 1.0, 3.0, 100.0]), min_size=n, max_size=n))
         return {
